@@ -1,0 +1,34 @@
+//! Hooks for the number-formatting and conversion checks (area `misc`).
+
+use crate::number::Number;
+use crate::pretty_print::FormatOptions;
+use crate::value::Value;
+
+/// `Number::pretty_print_with` applied to the f64 with the given bit pattern.
+pub fn format_number(
+    bits: u64,
+    digit_separator: &str,
+    digit_grouping_threshold: usize,
+    significant_digits: usize,
+) -> String {
+    let options = FormatOptions {
+        digit_separator: digit_separator.to_string(),
+        digit_grouping_threshold,
+        significant_digits,
+        ..FormatOptions::default()
+    };
+    Number::from_f64(f64::from_bits(bits))
+        .pretty_print_with(&options)
+        .to_string()
+}
+
+/// Bit pattern of the (unconverted) numerical value of a quantity, and its unit as displayed.
+pub fn quantity_bits(value: &Value) -> Option<(u64, String)> {
+    match value {
+        Value::Quantity(q) => Some((
+            q.unsafe_value().to_f64().to_bits(),
+            q.unit().to_string(),
+        )),
+        _ => None,
+    }
+}
